@@ -259,6 +259,30 @@ def sample_of(scn):
     return {"id": scn.sid, "cap": scn.cap, "buf": [scn.buf, scn.uns], "commands": [c.name.decode("latin1") for c in scn.cmds][:8], "ops": ops[:6], "n_ops": len(ops)}
 
 
+def thread_runs(seed, tier):
+    """TSan runs of harness/threads.c against the working tree: 1..8 producers, ring capacities
+    1, 2, 8, real pthread mutex; plus one control run without mutex that must make TSan fire."""
+    bins = lib.build_threads()
+    rng = random.Random(seed * 31 + 5)
+    cfg = []
+    nseeds = 2 if tier == "quick" else 12
+    per = 1500 if tier == "quick" else 6000
+    for cap in (1, 2, 8):
+        for np_ in ((1, 3, 8) if tier == "quick" else (1, 2, 3, 4, 5, 6, 7, 8)):
+            for _ in range(nseeds):
+                cfg.append((cap, np_, per, rng.randrange(1, 1 << 30), 1))
+    res = lib.run_threads(bins, cfg)
+    control = lib.run_threads(bins, [(2, 4, 3000, seed, 0)])[0]
+    fails = [r for r in res if r["races"] or r["mismatch"] or r["rc"] not in (0,)]
+    tot = lambda key: sum(int(re.search(key + r"=(\d+)", r["line"]).group(1)) for r in res if re.search(key + r"=(\d+)", r["line"]))
+    return {"runs": len(res), "producers": sorted(set(c[1] for c in cfg)), "capacities": [1, 2, 8],
+            "triggers_accepted": tot("accepted"), "triggers_refused_full": tot("full"), "events_delivered": tot("delivered"),
+            "holds_released_by_other_thread": tot("holds"), "service_calls": tot("service_calls"),
+            "tsan_reports": sum(r["races"] for r in res), "count_mismatches": sum(1 for r in res if r["mismatch"]),
+            "detector_control_without_mutex_reports": control["races"],
+            "sample": [r["line"] for r in res[:3]], "failures": fails}
+
+
 def main():
     t0 = time.time()
     pid = sys.argv[1]
@@ -271,6 +295,22 @@ def main():
     tier = os.environ.get("VERIF_TIER", tier) if tier not in ("quick", "thorough") else tier
     seed = int(os.environ.get("VERIF_SEED", "1"))
     kf = known_findings()
+
+    if replay and pid == "C17" and replay.endswith(".txt"):
+        # a thread-run replay: re-run the recorded configuration (several times: schedules vary)
+        m = re.search(r"threads(\d+) (\d+) (\d+) (\d+) (\d+)", open(replay).read())
+        bins = lib.build_threads()
+        cfg = (int(m.group(1)), int(m.group(2)), int(m.group(3)), int(m.group(4)), int(m.group(5)))
+        res = lib.run_threads(bins, [cfg] * 8)
+        bad = [r for r in res if r["races"] or r["mismatch"]]
+        for r in res[:2]:
+            print(r["line"])
+        if bad:
+            print(bad[0]["stderr"][-1500:])
+            print("VIOLATION property=C17 replay=%s" % replay)
+            sys.exit(1)
+        print("C17 thread replay: 8 runs, no data race report, counts match -> ok")
+        sys.exit(0)
 
     ls = lean_side(pid, tier)
     try:
@@ -307,6 +347,20 @@ def main():
     nrep = 0
     exit_code = 0
     reported = []
+    # C17: the part a model cannot exhibit — real threads, a real mutex, ThreadSanitizer
+    thread_ev = None
+    if pid == "C17" and not replay:
+        thread_ev = thread_runs(seed, tier)
+        if thread_ev["failures"]:
+            f = thread_ev["failures"][0]
+            nrep += 1
+            path = os.path.join(os.environ.get("VERIF_REPLAY_DIR") or os.path.join(VERIF, "evidence", "replays"), "C17-threads-%d.txt" % nrep)
+            os.makedirs(os.path.dirname(path), exist_ok=True)
+            open(path, "w").write("C17 thread run failed: %d data race report(s), count mismatch=%s\n"
+                                  "rebuild and rerun: gcc -O1 -g -fsanitize=thread -DCAT_UNSOLICITED_CMD_BUFFER_SIZE=<cap> -I/repo/src /verif/harness/threads.c /repo/src/cat.c -lpthread -o threads<cap>; TSAN_OPTIONS=exitcode=66 ./%s\n%s\n%s\n"
+                                  % (f["races"], f["mismatch"], f["cmd"], f["line"], f["stderr"]))
+            out_lines.append("VIOLATION property=C17 replay=%s" % path)
+            exit_code = 1
     # 1. oracle violations
     fresh = []
     for s, msgs in viol:
@@ -397,6 +451,9 @@ def main():
         "wall_s": round(wall, 2),
         "violations": 1 if exit_code else 0,
     }
+    if thread_ev is not None:
+        ev["coverage"]["thread_runs"] = {k: v for k, v in thread_ev.items() if k != "failures"}
+        ev["coverage"]["thread_failures"] = len(thread_ev["failures"])
     if not replay and not os.environ.get("VERIF_NO_EVIDENCE"):
         lib.write_json(os.path.join(VERIF, "evidence", "%s.json" % pid), ev)
     for l in out_lines:
